@@ -148,6 +148,27 @@ func (m *histModel) lenOfGen(p *eng.Prog, v ssa.Value) (string, bool) {
 	return "", false
 }
 
+// fullCmp: bo compares len(generation) with the capacity; pol > 0: true means full, < 0: false means full, 0: no.
+func (m *histModel) fullCmp(p *eng.Prog, bo *ssa.BinOp, f *ssa.Function) (string, int) {
+	if g, ok := m.lenOfGen(p, bo.X); ok && m.capLike(p, bo.Y, f) {
+		switch bo.Op {
+		case token.GEQ, token.GTR, token.EQL:
+			return g, 1
+		case token.LSS, token.LEQ, token.NEQ:
+			return g, -1
+		}
+	}
+	if g, ok := m.lenOfGen(p, bo.Y); ok && m.capLike(p, bo.X, f) {
+		switch bo.Op {
+		case token.LEQ, token.LSS, token.EQL:
+			return g, 1
+		case token.GTR, token.GEQ, token.NEQ:
+			return g, -1
+		}
+	}
+	return "", 0
+}
+
 func constIntIs(v ssa.Value, k int64) bool {
 	cst, ok := v.(*ssa.Const)
 	if !ok || cst.Value == nil || cst.Value.Kind() != constant.Int {
@@ -180,11 +201,44 @@ func (m *histModel) histEdges(p *eng.Prog, f *ssa.Function) (full map[string]eng
 			cond = u.X
 			tIdx, fIdx = fIdx, tIdx
 		}
+		tE, fE := eng.Edge{From: b, To: b.Succs[tIdx]}, eng.Edge{From: b, To: b.Succs[fIdx]}
+		// a predicate helper (activeIsFull()) whose every return is one such comparison
+		if pc, isCall := cond.(*ssa.Call); isCall {
+			if h := pc.Call.StaticCallee(); h != nil && p.InRepo(h) && len(h.Blocks) > 0 {
+				gen, pol, okP := "", 0, true
+				for _, r := range eng.Returns(h) {
+					if len(r.Results) != 1 {
+						okP = false
+						continue
+					}
+					rb, isB := p.Resolve(r.Results[0]).(*ssa.BinOp)
+					if !isB {
+						okP = false
+						continue
+					}
+					g, pl := m.fullCmp(p, rb, h)
+					if pl == 0 || (gen != "" && (g != gen || pl != pol)) {
+						okP = false
+					}
+					gen, pol = g, pl
+				}
+				if okP && gen != "" {
+					if full[gen] == nil {
+						full[gen] = eng.EdgeSet{}
+					}
+					if pol > 0 {
+						full[gen][tE] = true
+					} else {
+						full[gen][fE] = true
+					}
+				}
+			}
+			continue
+		}
 		bo, ok := cond.(*ssa.BinOp)
 		if !ok {
 			continue
 		}
-		tE, fE := eng.Edge{From: b, To: b.Succs[tIdx]}, eng.Edge{From: b, To: b.Succs[fIdx]}
 		add := func(g string, e eng.Edge) {
 			if full[g] == nil {
 				full[g] = eng.EdgeSet{}
@@ -350,7 +404,7 @@ func ruleHistory(c *Ctx) {
 			}
 			// a fresh / nil map
 			freshVal := true
-			for _, o := range p.Origins(st.Val, eng.OriginOpts{}) {
+			for _, o := range p.Origins(st.Val, eng.OriginOpts{ThroughConvert: true, Interproc: true}) {
 				switch x := o.(type) {
 				case *ssa.MakeMap:
 				case *ssa.Const:
@@ -415,14 +469,65 @@ func ruleHistory(c *Ctx) {
 	}
 	c.Floor("HISTORY", "stores that replace a generation of the history", nStores, 2)
 
-	// (b)–(d): Add
+	// (b)–(d): Add and its core
 	add := p.Fn("(*" + replayT + ").Add")
 	if add == nil {
 		return // reported by runC07
 	}
-	e := edgesOf(add)
-	hits := m.hitsIn(c, add, 0)
-	ins := m.insertsIn(c, add, 0)
+	// The body that looks up and inserts may be a helper Add delegates to (addLocked(hash)): descend while the function has
+	// neither lookups nor insertions of its own and returns the result of one helper call. Every other return of the outer
+	// function must be a constant false or lie on a history-off edge.
+	core := add
+	ctx := map[*ssa.Parameter]string{}
+	for d := 0; d < 3; d++ {
+		if len(m.hitsIn(c, core, ctx, 0))+len(m.insertsIn(c, core, ctx, 0)) > 0 {
+			break
+		}
+		var tail *ssa.Call
+		for _, cl := range eng.Calls(core) {
+			call, ok := cl.(*ssa.Call)
+			if !ok {
+				continue
+			}
+			h := call.Call.StaticCallee()
+			if h == nil || !p.InRepo(h) || h.Pkg != core.Pkg || len(h.Blocks) == 0 || h.Signature.Results().Len() != 1 {
+				continue
+			}
+			if bt, ok := h.Signature.Results().At(0).Type().Underlying().(*types.Basic); !ok || bt.Kind() != types.Bool {
+				continue
+			}
+			if len(m.hitsIn(c, h, m.bindCtx(p, call, h, ctx), 0))+len(m.insertsIn(c, h, m.bindCtx(p, call, h, ctx), 0)) > 0 || d < 2 {
+				for _, r := range eng.Returns(core) {
+					if len(r.Results) == 1 && p.AnyFrom(retVal(p, r), eng.OriginOpts{}, func(v ssa.Value) bool { return v == ssa.Value(call) }) {
+						tail = call
+					}
+				}
+			}
+		}
+		if tail == nil {
+			break
+		}
+		eo := edgesOf(core)
+		for _, r := range eng.Returns(core) {
+			if len(r.Results) != 1 || len(r.Block().Preds) == 0 && r.Block() != core.Blocks[0] {
+				continue
+			}
+			rv := retVal(p, r)
+			if p.AnyFrom(rv, eng.OriginOpts{}, func(v ssa.Value) bool { return v == ssa.Value(tail) }) {
+				continue
+			}
+			if cst, isC := rv.(*ssa.Const); isC && cst.Value != nil && cst.Value.Kind() == constant.Bool && !constant.BoolVal(cst.Value) {
+				continue
+			}
+			c.CheckAt("HISTORY", "Add:answers-new-without-the-history-only-when-it-is-off", r, len(eo.off) > 0 && eng.Cut(core, r.Block(), eo.off), "Add answers \"new\" without consulting the history although the history is enabled")
+		}
+		h := tail.Call.StaticCallee()
+		ctx = m.bindCtx(p, tail, h, ctx)
+		core = h
+	}
+	e := edgesOf(core)
+	hits := m.hitsIn(c, core, ctx, 0)
+	ins := m.insertsIn(c, core, ctx, 0)
 	consulted := map[string]bool{}
 	for _, h := range hits {
 		for _, g := range h.gens {
@@ -430,10 +535,10 @@ func ruleHistory(c *Ctx) {
 		}
 	}
 	for _, g := range m.gens {
-		c.Check("HISTORY", "Add:consults:"+g, p.Pos(add.Pos()), consulted[g], fmt.Sprintf("Add never looks the handshake up in generation %q (or ignores what a helper found there): a handshake remembered only there is accepted again", g))
+		c.Check("HISTORY", "Add:consults:"+g, p.Pos(core.Pos()), consulted[g], fmt.Sprintf("Add never looks the handshake up in generation %q (or ignores what a helper found there): a handshake remembered only there is accepted again", g))
 	}
 	if len(ins) == 0 {
-		c.Undecided("HISTORY", "Add:insert", p.Pos(add.Pos()), "Add contains no insertion into a generation map (idiom not recognised)")
+		c.Undecided("HISTORY", "Add:insert", p.Pos(core.Pos()), "Add contains no insertion into a generation map (idiom not recognised)")
 		return
 	}
 	key := ins[0].key
@@ -460,21 +565,53 @@ func ruleHistory(c *Ctx) {
 	} else {
 		through := eng.OriginOpts{ThroughSlice: true, ThroughConvert: true, ThroughBinOp: true, ThroughIndex: true,
 			ThroughCalls: func(call *ssa.Call) []ssa.Value { return call.Call.Args }}
-		hasID := p.AnyFrom(key, through, func(v ssa.Value) bool { return v == ssa.Value(idP) })
-		hasSalt := p.AnyFrom(key, through, func(v ssa.Value) bool { return v == ssa.Value(saltP) })
+		// the key of a core helper is its parameter: climb to the arguments it is called with
+		keys := []ssa.Value{key}
+		for d := 0; d < 3; d++ {
+			var next []ssa.Value
+			climbed := false
+			for _, k := range keys {
+				pa, isP := p.Resolve(k).(*ssa.Parameter)
+				if !isP || pa.Parent() == add {
+					next = append(next, k)
+					continue
+				}
+				idx := -1
+				for i, q := range pa.Parent().Params {
+					if q == pa {
+						idx = i
+					}
+				}
+				for _, site := range p.CallSitesOf(pa.Parent()) {
+					if args := site.Ins.(ssa.CallInstruction).Common().Args; idx >= 0 && idx < len(args) && !p.IsTestSupport(site.Fn) {
+						next = append(next, args[idx])
+						climbed = true
+					}
+				}
+			}
+			keys = next
+			if !climbed {
+				break
+			}
+		}
+		hasID, hasSalt := len(keys) > 0, len(keys) > 0
+		for _, k := range keys {
+			hasID = hasID && p.AnyFrom(k, through, func(v ssa.Value) bool { return v == ssa.Value(idP) })
+			hasSalt = hasSalt && p.AnyFrom(k, through, func(v ssa.Value) bool { return v == ssa.Value(saltP) })
+		}
 		c.Check("HISTORY", "Add:key-covers-id-and-salt", p.Pos(add.Pos()), hasID && hasSalt, "the remembered key is not computed from both the access-key id and the salt (a handshake is the pair)")
 	}
 	// (b) a hit makes Add return false
 	for _, h := range hits {
 		okV := h.v
-		_, missEdges := eng.BoolEdges(add, func(v ssa.Value) bool { return v == okV })
+		_, missEdges := eng.BoolEdges(core, func(v ssa.Value) bool { return v == okV })
 		bad := ""
 		reach := eng.ReachBlocks(h.at.Block(), missEdges)
-		for _, r := range eng.Returns(add) {
+		for _, r := range eng.Returns(core) {
 			if !reach[r.Block()] || len(r.Results) == 0 {
 				continue
 			}
-			if v, known := evalBool(retVal(p, r), okV, true, missEdges, 0); !known || v {
+			if v, known := evalBool(p, retVal(p, r), okV, true, missEdges, 0); !known || v {
 				bad = p.IPos(r)
 			}
 		}
@@ -506,10 +643,42 @@ func ruleHistory(c *Ctx) {
 			}
 		}
 	}
-	if len(add.Blocks) > 0 {
-		walk(add.Blocks[0])
+	if len(core.Blocks) > 0 {
+		walk(core.Blocks[0])
 	}
-	c.Check("HISTORY", "Add:every-checked-handshake-is-remembered", p.Pos(add.Pos()), bad == "", fmt.Sprintf("with the history enabled Add can return without having inserted the handshake (return at %s): it is not among the remembered ones although it was just checked", bad))
+	c.Check("HISTORY", "Add:every-checked-handshake-is-remembered", p.Pos(core.Pos()), bad == "", fmt.Sprintf("with the history enabled Add can return without having inserted the handshake (return at %s): it is not among the remembered ones although it was just checked", bad))
+}
+
+// genOfCtx: like genOf but local to the function: origins are loads of one generation field, or parameters bound to a
+// generation at the call site under analysis (a set type's contains/insert methods receive the generation as receiver).
+func (m *histModel) genOfCtx(p *eng.Prog, v ssa.Value, ctx map[*ssa.Parameter]string) (string, bool) {
+	g := ""
+	for _, o := range p.Origins(v, eng.OriginOpts{ThroughConvert: true}) {
+		x, ok := m.genLoad(o)
+		if !ok {
+			if pa, isP := o.(*ssa.Parameter); isP && ctx[pa] != "" {
+				x, ok = ctx[pa], true
+			}
+		}
+		if !ok || (g != "" && g != x) {
+			return "", false
+		}
+		g = x
+	}
+	return g, g != ""
+}
+
+// bindCtx: the generation bindings of h's parameters at this call.
+func (m *histModel) bindCtx(p *eng.Prog, call *ssa.Call, h *ssa.Function, ctx map[*ssa.Parameter]string) map[*ssa.Parameter]string {
+	out := map[*ssa.Parameter]string{}
+	for i, a := range call.Call.Args {
+		if i < len(h.Params) {
+			if g, ok := m.genOfCtx(p, a, ctx); ok {
+				out[h.Params[i]] = g
+			}
+		}
+	}
+	return out
 }
 
 // histHit: a boolean value of a function that is true when the handshake was found in the generations `gens`.
@@ -522,7 +691,7 @@ type histHit struct {
 
 // hitsIn: the lookups of f in generation maps, and the calls of f to helpers of the same package that report their
 // own lookups faithfully (every return of the helper reachable after a hit evaluates to true under that hit).
-func (m *histModel) hitsIn(c *Ctx, f *ssa.Function, depth int) []histHit {
+func (m *histModel) hitsIn(c *Ctx, f *ssa.Function, ctx map[*ssa.Parameter]string, depth int) []histHit {
 	p := c.P
 	var out []histHit
 	for _, b := range f.Blocks {
@@ -532,7 +701,7 @@ func (m *histModel) hitsIn(c *Ctx, f *ssa.Function, depth int) []histHit {
 				if !x.CommaOk {
 					continue
 				}
-				g, ok := m.genOf(p, x.X)
+				g, ok := m.genOfCtx(p, x.X, ctx)
 				if !ok {
 					continue
 				}
@@ -556,7 +725,7 @@ func (m *histModel) hitsIn(c *Ctx, f *ssa.Function, depth int) []histHit {
 				if bt, ok := res.At(0).Type().Underlying().(*types.Basic); !ok || bt.Kind() != types.Bool {
 					continue
 				}
-				inner := m.hitsIn(c, h, depth+1)
+				inner := m.hitsIn(c, h, m.bindCtx(p, x, h, ctx), depth+1)
 				if len(inner) == 0 {
 					continue
 				}
@@ -570,7 +739,7 @@ func (m *histModel) hitsIn(c *Ctx, f *ssa.Function, depth int) []histHit {
 						if !reach[r.Block()] || len(r.Results) == 0 {
 							continue
 						}
-						if v, known := evalBool(retVal(p, r), ih.v, true, miss, 0); !known || !v {
+						if v, known := evalBool(p, retVal(p, r), ih.v, true, miss, 0); !known || !v {
 							faithful = false
 						}
 					}
@@ -598,14 +767,14 @@ type histInsert struct {
 }
 
 // insertsIn: insertions into a generation map in f, directly or through a helper every path of which inserts.
-func (m *histModel) insertsIn(c *Ctx, f *ssa.Function, depth int) []histInsert {
+func (m *histModel) insertsIn(c *Ctx, f *ssa.Function, ctx map[*ssa.Parameter]string, depth int) []histInsert {
 	p := c.P
 	var out []histInsert
 	for _, b := range f.Blocks {
 		for _, ins := range b.Instrs {
 			switch x := ins.(type) {
 			case *ssa.MapUpdate:
-				if m.anyGen(p, x.Map) {
+				if _, ok := m.genOfCtx(p, x.Map, ctx); ok {
 					out = append(out, histInsert{x, x.Key})
 				}
 			case *ssa.Call:
@@ -616,7 +785,7 @@ func (m *histModel) insertsIn(c *Ctx, f *ssa.Function, depth int) []histInsert {
 				if h == nil || !p.InRepo(h) || h.Pkg != f.Pkg || h == f || len(h.Blocks) == 0 {
 					continue
 				}
-				inner := m.insertsIn(c, h, depth+1)
+				inner := m.insertsIn(c, h, m.bindCtx(p, x, h, ctx), depth+1)
 				if len(inner) == 0 {
 					continue
 				}
@@ -666,15 +835,25 @@ func (m *histModel) insertsIn(c *Ctx, f *ssa.Function, depth int) []histInsert {
 // retVal: the first result of r, looking through the result cell go/ssa introduces in functions with defers.
 func retVal(p *eng.Prog, r *ssa.Return) ssa.Value {
 	v := r.Results[0]
-	if rv := p.ReachingStore(v, r); rv != nil {
-		return rv
+	var at ssa.Instruction = r
+	for i := 0; i < 8; i++ {
+		rv := p.ReachingStore(v, at)
+		if rv == nil || rv == v {
+			break
+		}
+		v = rv
+		ld, isLoad := v.(*ssa.UnOp)
+		if !isLoad || ld.Op != token.MUL {
+			break
+		}
+		at = ld // `return x` with named results re-stores the loaded value: look for the store that reaches that load
 	}
 	return v
 }
 
 // evalBool evaluates a boolean SSA value under the assumption that `assume` has the value `as`; edges in `dead`
 // cannot be taken under that assumption.
-func evalBool(v, assume ssa.Value, as bool, dead eng.EdgeSet, depth int) (val, known bool) {
+func evalBool(p *eng.Prog, v, assume ssa.Value, as bool, dead eng.EdgeSet, depth int) (val, known bool) {
 	if depth > 16 {
 		return false, false
 	}
@@ -687,9 +866,17 @@ func evalBool(v, assume ssa.Value, as bool, dead eng.EdgeSet, depth int) (val, k
 			return constant.BoolVal(x.Value), true
 		}
 	case *ssa.UnOp:
-		if x.Op == token.NOT {
-			if r, ok := evalBool(x.X, assume, as, dead, depth+1); ok {
+		switch x.Op {
+		case token.NOT:
+			if r, ok := evalBool(p, x.X, assume, as, dead, depth+1); ok {
 				return !r, true
+			}
+		case token.MUL:
+			if rv := p.Resolve(x); rv != ssa.Value(x) {
+				return evalBool(p, rv, assume, as, dead, depth+1)
+			}
+			if rv := p.ReachingStore(x, x); rv != nil && rv != ssa.Value(x) {
+				return evalBool(p, rv, assume, as, dead, depth+1)
 			}
 		}
 	case *ssa.Phi:
@@ -700,9 +887,8 @@ func evalBool(v, assume ssa.Value, as bool, dead eng.EdgeSet, depth int) (val, k
 			if dead[eng.Edge{From: pred, To: x.Block()}] {
 				continue
 			}
-			r, ok := evalBool(ev, assume, as, dead, depth+1)
+			r, ok := evalBool(p, ev, assume, as, dead, depth+1)
 			if !ok {
-				// an incoming edge whose value is unknown: known only if a short-circuit makes it irrelevant — give up
 				return false, false
 			}
 			if first {
